@@ -80,6 +80,9 @@ theorem tf_stepDeqCv {s s' : State} {t : Tid} {j : Nat} {st0 : CvDeqSt} {e : Ev}
           simp only [setPc_pc, setPc_fr, ownerRemove_fr, if_true]
           exact tf_cvdeq_move st htf (fun hw => absurd hw hnr)
         · simp at h
+      · split at h
+        · cvdeq_mv trivial
+        · simp at h
       · exact tf_dflt c h
     · -- release
       rename_i res
@@ -89,6 +92,17 @@ theorem tf_stepDeqCv {s s' : State} {t : Tid} {j : Nat} {st0 : CvDeqSt} {e : Ev}
           have st' := st.congr_right hsh.1.symm hsh.2.1.symm hsh.2.2.symm
           have htf' := tf_stable st' (.inr trivial) htf
           exact tf_deqDone (s := (s.setObj _ _).setRec _ _) hl.1 htf'.1 htf'.2.1 hl.2.1 hl.2.2.1 (.inr ⟨hl.2.2.2.1, htf.2.2⟩) h
+        · simp at h
+      · exact tf_dflt c h
+    · -- wspin
+      split at h
+      · split at h
+        · split at h
+          · have hsh := shared_deqDone h
+            have st' := st.congr_right hsh.1.symm hsh.2.1.symm hsh.2.2.symm
+            have htf' := tf_stable st' (.inr trivial) htf
+            exact tf_deqDone (s := s.setRec _ _) hl.1 htf'.1 htf'.2.1 hl.2.1 hl.2.2.1 (.inr ⟨hl.2.2.2.1, fun _ => rfl⟩) h
+          · cases h; rw [hpc]; exact htf
         · simp at h
       · exact tf_dflt c h
   · simp at h
